@@ -28,6 +28,9 @@ ID = "C05"
 LEVEL = "exploration"
 DESIGN_REF = "DESIGN.md#C05"
 TECHNIQUE = "runtime monitoring: generated operator programs executed by the real interpreter; exact-rational reference text model as oracle; state recorder around form XObject invocation"
+LEVEL_TEXT = (
+    "Exploration against a reference interpreter: random operator programs (dyadic operands, so matrix arithmetic is exact) are executed by the real interpreter and by an exact-rational model of ISO 32000-1 9.3-9.4; every glyph's matrix, advance, bbox, size, font and fill colour is compared, and a recorder around Do compares the caller's full state before and after each form. Right level: the property quantifies over all programs; a reference model plus random programs with malformed operators injected is the strongest oracle that does not need a proof of the interpreter."
+)
 RULE = (
     "random content programs (20-70 operators quick) over q Q cm BT ET Tc Tw Tz TL Tf Ts Td TD Tm T* Tj TJ ' \" g rg k G RG K "
     "and Do of form XObjects (own /Matrix, /Resources or the page's by omission, nested <=3) with dyadic operands; 2-3 simple "
